@@ -550,6 +550,31 @@ def d_extract(inst, tier, w):
     for k in (1, 2):
         inst(f"extract.shapes|w={w}|k={k}", V, lambda c, k=k: body(c, k))
 
+    # n-ary xor / and / or / add of 3-5 concatenations that share a field: extracting the field distributes the
+    # slice over the n-ary node and rebuilds it with repeated operands (multiplicities 3, 4, 5)
+    def nary(c, n, opname):
+        import operator
+
+        f = {"xor": operator.xor, "and": operator.and_, "or": operator.or_, "add": operator.add}[opname]
+        x, y = c.bv("x", w), c.bv("y", w)
+        heads = [x, y, ~x, x + y, c.const(1 & mask(w), w)]
+        for shared in (y, c.const(mask(w), w), x ^ y):
+            e = S.Concat(heads[0], shared)
+            for h in heads[1:n]:
+                e = f(e, S.Concat(h, shared))
+            for hi, lo in ((w - 1, 0), (2 * w - 1, w), (w, w - 1) if w > 1 else (0, 0), (0, 0), (2 * w - 1, 0)):
+                if 0 <= lo <= hi < 2 * w:
+                    e[hi:lo]
+            e2 = S.Concat(shared, heads[0])
+            for h in heads[1:n]:
+                e2 = f(e2, S.Concat(shared, h))
+            e2[2 * w - 1 : w]
+            e2[w - 1 : 0]
+
+    for n in (3, 4, 5):
+        for opname in ("xor", "and", "or", "add"):
+            inst(f"extract.nary|w={w}|n={n}|{opname}", V[:2], lambda c, n=n, opname=opname: nary(c, n, opname))
+
 
 def d_concat(inst, tier, w):
     D2 = dom(w, 256, 2)
